@@ -609,7 +609,9 @@ func (x *Unit) invoke1(st *State, pc *preparedCall, n int) []Val {
 		// pointer-receiver methods of library types dereference their receiver
 		if _, isPtr := under(pc.recv.Typ).(*types.Pointer); isPtr {
 			if se, ok := ast.Unparen(call.Fun).(*ast.SelectorExpr); ok {
-				x.nilCheck(st, pc.recv.T, se.X)
+				if _, exprIsPtr := under(x.info.TypeOf(se.X)).(*types.Pointer); exprIsPtr { // not for the implicit &v of an addressable value
+					x.nilCheck(st, pc.recv.T, se.X)
+				}
 			}
 		}
 	}
